@@ -10,3 +10,52 @@ def tasks(tier):
     n = 40 if tier == 'quick' else 1000
     from specs.flows import flow_task, FLOWS
     return [(f'{op}', wrapper_task(op, 'C16', n)) for op in OPS if goals_for(op, OpPre, ('C16',))] + [(f'flow:{x}', flow_task(x, ('C16',))) for x in FLOWS]
+
+
+# ---------------------------------------------------------------- C16.b: sort_balances sorts the WHOLE array, descending by bank key
+import z3
+from mirsym.harness import *
+
+
+def t_sort(world):
+    eng = world.engine(opaque=[r'sort_by', r'sort_unstable_by', r'sort_by_key'])
+    f = world.fn(r'marginfi_account\.rs[^>]*>::sort_balances$')
+    la = eng.ex.fresh(f.params[0][1], 'la')
+    res = eng.run_fn(f, [la])
+    ob = Ob('C16.b', 'sort_balances: the standard sort is applied to the whole 16-slot array with the comparator cmp(b.bank_pk, a.bank_pk) (descending; inactive slots carry the default key and sink to the end)',
+            [f.name], 'loop-free; slice::sort_by itself is trusted std code; comparator executed from its MIR on two symbolic slots'); ob.paths = len(res)
+    n = 0
+    for r in returned(res):
+        n += 1
+        ob.queries += 1; ob.witness_sat += 1
+        sc = [e for e in flat_events(r['events']) if e[0] == 'call' and re.search(r'sort_by|sort_unstable_by', e[1])]
+        if len(sc) != 1: ob.fail(f'{len(sc)} sort calls'); continue
+        ref = sc[0][2][0]; tgt = eng.deref_val(ref)
+        bi = STRUCTS['LendingAccount'].index('balances')
+        whole = isinstance(ref, RefV) and ref.cell is r['roots'][0].cell and len(ref.path) == 1 and ref.path[0][0] == 'f' and ref.path[0][1] == bi and re.search(r'; 16\]$', ref.path[0][2].strip())
+        ob.queries += 1
+        if whole: ob.unsat += 1
+        else:
+            ob.sat += 1; ob.cex.append({'ob': ob.oid, 'label': 'the sort is not applied to the complete balances array (a sub-slice or another object is sorted)', 'role': 'sort-range',
+                                       'model': {'sorted_object': getattr(tgt, 'name', str(tgt))[:80], 'type': getattr(tgt, 'ty', '?')}, 'replay': None})
+        cf = eng.closure_fn(sc[0][1])
+        if cf is None:
+            cands = [x for x in world.fns(r'sort_balances::\{closure#\d+\}$') if len(x.params) == 3]
+            cf = cands[0] if len(cands) == 1 else None
+        if cf is None: ob.fail('comparator closure not found'); continue
+        ob.functions.append(cf.name)
+        e2 = world.engine()
+        a = e2.ex.fresh('&Balance', 'sa'); b = e2.ex.fresh('&Balance', 'sb')
+        env = RefV(Cell(StructV('closure', 'env', {}, lazy=False)))
+        cres = e2.run_fn(cf, [env, a, b])
+        ka = fsym('sa*', 'Balance', 'bank_pk'); kb = fsym('sb*', 'Balance', 'bank_pk')
+        for cr in returned(cres):
+            o = cr['ret']
+            ob.prove(e2, cr, [], zint(o.disc) == z3.If(kb < ka, -1, z3.If(kb == ka, 0, 1)), 'comparator(a, b) == cmp(b.bank_pk, a.bank_pk): descending by bank key', role='sort-order')
+    ob.need_witness()
+    return [ob]
+
+
+_t16 = tasks
+def tasks(tier):
+    return _t16(tier) + [('sort', t_sort)]
